@@ -29,7 +29,7 @@ ASSUMPTIONS = ['antipodal quaternion pairs (1 + dot < 1e-9) are excluded unless 
 MIN_EVALS = {'sample': {'quick': 20000, 'thorough': 300000}, 'range': {'quick': 1500, 'thorough': 20000},
              'routes': {'quick': 600, 'thorough': 8000}, 'vector_s': {'quick': 200, 'thorough': 3000}}
 SVALS = [0.0, 1e-12, 1e-9, 1e-6, 1e-3, 0.25, 0.5, 0.75, 1 - 1e-3, 1 - 1e-6, 1 - 1e-9, 1 - 1e-12, 1.0]
-BAD_S = [-1e-9, 1 + 1e-9, -0.5, 1.5, -1e-3, 2.0]
+BAD_S = [-1e-9, 1 + 1e-9, -0.5, 1.5, -1e-3, 2.0, 2, 3, 7, -1, 10]      # floats and plain integers (an integer count is not a coefficient)
 
 
 def S():
